@@ -12,6 +12,7 @@ import (
 	"fmt"
 	"os"
 	"strings"
+	"time"
 
 	"golang.org/x/tools/go/ssa"
 	"verif/harness/gen"
@@ -23,13 +24,23 @@ func main() {
 	rep := lib.NewReport("C11")
 	rep.Rule = "generated pointer programs (cases of named functions, closures, methods, interfaces; statements over pointers, fields, **T, slices, arrays, maps, channels, function values, interfaces, globals, go/defer, recursion; every definition probed): distinct = distinct per-function fact text; non-trivial = function with at least one load/store/call fact"
 	r := lib.Rand("c11")
-	progs, cases := 2, 60
+	progs, cases := 3, 50
 	if lib.Thorough() {
 		progs, cases = 8, 100
 	}
 	rep.Extra["programs"] = progs
 	rep.Extra["cases_per_program"] = cases
+	start := time.Now()
+	budget := 110 * time.Second // after this much wall time no further program is started (the first always runs)
+	if lib.Thorough() {
+		budget = 25 * time.Minute
+	}
 	for pi := 0; pi < progs; pi++ {
+		if pi > 0 && time.Since(start) > budget {
+			rep.Notes = append(rep.Notes, fmt.Sprintf("time budget reached after %d of %d programs", pi, progs))
+			break
+		}
+		rep.Extra["programs_run"] = pi + 1
 		o := gen.PtrOpts{Cases: cases, Stmts: 8 + r.Intn(8), Funcs: 2 + r.Intn(3)}
 		if pi > 0 { // the first program has every feature; the others vary shape and feature set
 			o = gen.PtrOpts{Cases: cases, Stmts: 5 + r.Intn(22), Funcs: 1 + r.Intn(5), NoGo: r.Intn(4) == 0,
@@ -94,7 +105,7 @@ func checkProgram(rep *lib.Report, run *ptrrun.Result, pi int) {
 	switch {
 	case len(missed) > 0:
 		m := missed[0]
-		content := ptrrun.Replay(run, m.Case, fmt.Sprintf("%s\n%d missed aliases in this program; criterion failures: %v\n", m.Text, len(missed), run.Fails))
+		content := ptrrun.Replay(run, m.Case, fmt.Sprintf("%s\n%d missed aliases in this program; criterion failures: %s\n", m.Text, len(missed), strings.Join(run.FailText(6), " | ")))
 		rep.Fail(fmt.Sprintf("missed-alias:%s", m.Key), "objects are the same at run time but the pointer analysis says they cannot alias: "+m.Short, content, false)
 	case !closed:
 		// targeted search: programs concentrated on the instruction kinds whose rule failed
